@@ -20,13 +20,22 @@ def _frozen_ctor_fields():
     return _FROZEN[0]
 
 
-def check_equiv(chk, rule, module, cls, name, ref_src, key, what, host=None, ignore_fields=(), no_inline=(), depth=None, limit=14):
+def check_equiv(chk, rule, module, cls, name, ref_src, key, what, host=None, ignore_fields=(), no_inline=(), depth=None, limit=14, alt_refs=(), ignore_refresh=False, ctor=False):
+    """alt_refs: further reference models of the same behaviour built from other, separately checked, parts of the
+    code (e.g. a report that may reuse a sibling accessor); the function must be equivalent to one of them."""
     host = host or cls
     fi = chk.prog.func(module, cls, name)
-    S = chk.summary(module, cls, name, host=host, no_inline=no_inline, depth=depth)
-    Rf = chk.ref(ref_src, host, module=module, depth=depth, no_inline=no_inline)
+    S = chk.summary(module, cls, name, host=host, no_inline=no_inline, depth=depth, ignore_refresh=ignore_refresh)
     code_fields, ref_fields = ({}, {}) if cls is None else (ctor_field_map(chk.prog, host), _frozen_ctor_fields().get(host, {}))
-    n, diffs = equiv.compare(S, Rf, limit=limit, ignore_fields=ignore_fields, code_fields=code_fields, ref_fields=ref_fields)
+    n, diffs = None, None
+    for src in (ref_src,) + tuple(alt_refs):
+        Rf = chk.ref(src, host, module=module, depth=depth, no_inline=no_inline, ignore_refresh=ignore_refresh)
+        n_, diffs_ = equiv.compare(S, Rf, limit=limit, ignore_fields=ignore_fields, code_fields=code_fields, ref_fields=ref_fields, final_self=ctor)
+        if n is None:
+            n, diffs = n_, diffs_
+        if n_ >= 0 and not diffs_:
+            n, diffs = n_, diffs_
+            break
     hostname = "%s.%s" % (cls, name)
     chk.site()
     if n < 0:
